@@ -581,3 +581,15 @@ def restage(script):
             any(m.get('name') == 'late_mem' for m in script['mems'][:nm]):
         return None
     return {'mems': nm, 'wires': nw, 'nets': nn}
+
+
+def maybe_stage(rng, script, prob, uses):
+    """With probability prob: (script + late cone, {'mems','wires','nets','use'}), else
+    (script, None). 'use' names what is done to the design before it is extended."""
+    if rng.random() >= prob:
+        return script, None
+    s2, st = add_late_cone(rng, script)
+    if s2 is None:
+        return script, None
+    st['use'] = rng.choice(uses)
+    return s2, st
